@@ -96,11 +96,11 @@ def history_cases(ctx: Ctx) -> list[dict]:
     cases = []
     if ctx.quick:
         plan = [("MC_TypeSystem_hist.cfg", "histories_exhaustive_2_classes_depth2")]
-        n_sim, depth = 150, 11
+        n_sim, depth = 80, 11
     else:
         plan = [("MC_TypeSystem_hist.cfg", "histories_exhaustive_2_classes_depth2"),
                 ("MC_TypeSystem_hist_n3.cfg", "histories_exhaustive_3_classes_depth2")]
-        n_sim, depth = 800, 12
+        n_sim, depth = 500, 12
     for cfg, note in plan:
         got = ctx.behaviours("MC_TypeSystem", cfg, timeout=6000)
         ctx.notes[note] = len(got)
@@ -122,6 +122,7 @@ def run_histories(ctx: Ctx) -> None:
     d = ctx.work / "hmods"
     d.mkdir(parents=True, exist_ok=True)
     jobs = [(c, str(d), f"tsh_{i}_{p.lower()}", p) for i, c in enumerate(cases) for p in ("G", "R")]
+    ctx.rng("order").shuffle(jobs)            # long and short histories spread evenly over the TLC chunks
     traces = parallel_map(ad.replay_history, jobs, procs=8, chunksize=16)
     ctx.notes["history_traces"] = len(traces)
     for t in traces:
@@ -175,6 +176,8 @@ def run(ctx: Ctx) -> None:
                              f"CacheCoherent, TLC reported {sorted(got)}")
     # static part
     jobs = base.hierarchy_cases(ctx)
+    if ctx.quick:      # C25 quick runs all of them; here every second hierarchy keeps the tier within budget
+        jobs = jobs[::2]
     traces, behs = base.run_cases(ctx, jobs)
     ctx.exhaustive = True
     for t in traces:
